@@ -205,7 +205,10 @@ impl AgentSim {
             if let Err(v) = self.model.check_handle_obs(*handle, *before) {
                 return Err(self.fail(ctx, v));
             }
-            if let (Some(_), Some(a)) = (before, after) {
+            // (a send that re-uses the handle's own id — possible while that transaction is in limbo —
+            // leaves open which of the two transactions the kept handle now speaks for)
+            let reuses_own_id = matches!(&c, Call::Via { inner, .. } if matches!(&**inner, Call::Send { spec, .. } if spec.tid == *handle));
+            if let (Some(_), Some(a), false) = (before, after, reuses_own_id) {
                 self.pending_after = Some((*handle, *a));
             }
         }
@@ -617,6 +620,12 @@ impl AgentSim {
         let t = self.poll_target();
         // class: 0 exact, 1 early, 2 1ns early, 3 1ns late, 4 late, 5 very late, 6 same instant, 7 tiny step, 8 huge jump
         let class = ctx.ch.weighted(&[10, 5, 3, 3, 5, 3, 3, 2, 1, 1, if self.stale_polls { 2 } else { 0 }]) as u8;
+        // (only while nothing is due at the latest instant: then nothing is due at the stale one either
+        // and the only admissible answer is the same WaitUntil — an implementation that clamps its
+        // clock to the latest instant it has seen and one that does not are indistinguishable here,
+        // and no property says which of the two a *due* transaction would be stamped with)
+        let nothing_due = self.model.live_count() > 0 && self.model.live().all(|t| !t.rc && !t.sc && t.next_instant() > self.now);
+        let class = if class == 10 && !nothing_due { 6 } else { class };
         if class == 10 {
             // a stale clock sample: the application took `now` before some other call that was handed
             // a later instant (a send stamped with a fresh sample, a poll from another code path).
